@@ -1287,7 +1287,7 @@ fn corpus(ctx: &mut Ctx) {
     // count_including_deleted leaves doc()
     let t3 = T::BUnion { sum: false, cs: vec![leaf(vec![1, 5, 9000], 1), leaf(vec![5, 7], 1)], num_docs: 10_000 };
     check_direct(ctx, &t3, &[Call::Adv, Call::Count, Call::Doc, Call::Adv, Call::Doc], "corpus-union-count");
-    let t4 = T::Inter { cs: vec![leaf(vec![1, 2000], 1), leaf(vec![1], 1)], num_docs: 10 };
+    let t4 = T::Inter { cs: vec![leaf(vec![1, 5000], 1), leaf(vec![1, 2, 3], 1)], num_docs: 10 };
     check_direct(ctx, &t4, &[Call::Count, Call::Doc, Call::Adv, Call::Doc], "corpus-inter-dense-count");
     // nested buffered unions under an intersection (seek_danger below the inner window start)
     let x = T::BUnion { sum: false, cs: vec![leaf(vec![100, 5000, 5010], 1), leaf(vec![20_000], 1)], num_docs: 30_000 };
